@@ -46,6 +46,16 @@ Theorem C16_reconnect_restores_subscriptions : forall es k sid k' (drop_first : 
 Proof. exact reconnect_restores_subscriptions. Qed.
 Print Assumptions C16_reconnect_restores_subscriptions.
 
+(** nobody connected, no live session object: a persistent session written into the storage is what the next
+    cleanSession=false connect gets (the session manager must not answer from a stale cached copy) *)
+Theorem C16_reconnect_reads_store : forall es tp k',
+  let cs := crun ideal cstate0 es in
+  reg cs = None -> smp cs = None -> zget k' (conns cs) = None ->
+  let cs2 := cstep ideal (cstep ideal cs (CStorePut tp)) (CConnect k' false) in
+  reg cs2 = Some k' /\ (forall f, sget f (tri cs2) = sget f (aset_all String.eqb tp [])).
+Proof. exact reconnect_reads_store. Qed.
+Print Assumptions C16_reconnect_reads_store.
+
 (** connecting with cleanSession=true discards the previous session in every reachable state *)
 Theorem C16_clean_discards : forall es k',
   let cs := crun ideal cstate0 es in
